@@ -457,8 +457,18 @@ def pre_encoded_identity(ctx: Ctx):
     fi = model.func("_url.pre_encoded_url")
     r = analyze(model, fi)
     ctx.functions.add(fi.qual)
+    split = ("call", ("global", "_parse", "split_url"), (("param", fi.params[0]),), ())
+    from .immut import _fresh
     for s, v, node in r.returns:
         ctx.instance(rule)
+        if v[0] == "call" and _fresh(model, v) and not v[3]:
+            # the un-memoised constructor called with the split parts: *split_url(url) or its five items in order
+            items = tuple(("item", split, i) for i in range(5))
+            alt = tuple(("sub", split, ("const", i)) for i in range(5))
+            ok = v[2] == (("star", split),) or v[2] == items or v[2] == alt
+            ctx.ob(rule, fi.qual, "stored parts", ok, "with encoded=True the five split parts must be stored by identity", where(fi, node),
+                   sample="constructor(*split_url(url))")
+            continue
         ok = v[0] == "new"
         if ok:
             for i, slot in enumerate(("_scheme", "_netloc", "_path", "_query", "_fragment")):
